@@ -370,8 +370,9 @@ Proof. intros reg data ft fuel c st Hfuel. destruct fuel as [|f]; [lia|]. reflex
 
 Lemma render_template_S reg data ft f t st :
   render_template reg data ft (S f) t st
-  = fold_idx (fun e idx s' => rmap_err (render_element reg data ft f e s') (attach_render t idx))
-             (t_els t) O (set_current st (t_name t)).
+  = rbind (fold_idx (fun e idx s' => rmap_err (render_element reg data ft f e s') (attach_render t idx))
+                    (t_els t) O (set_current st (t_name t)))
+          (fun _ s' => ROk tt (set_current s' (s_current st))).
 Proof. reflexivity. Qed.
 
 Theorem tagfree_render : forall reg data ft fuel name m (s : str) root dev, (2 <= fuel)%nat ->
@@ -382,7 +383,7 @@ Proof.
   destruct fuel as [|f]; [lia|]. rewrite render_template_S. cbn [t_els t_name fold_idx].
   destruct (raw_element_writes reg data ft f s (set_current (st_init root dev None) name))
     as (st' & E & T & _ & _); [reflexivity | reflexivity | lia |].
-  rewrite E. cbn [rmap_err rbind]. exists st'. split; [reflexivity|]. exact T.
+  rewrite E. cbn [rmap_err rbind]. eexists. split; [reflexivity|]. exact T.
 Qed.
 
 (* the whole chain: for every source without "{{" (including the empty one) *)
@@ -424,3 +425,12 @@ Proof. split; [apply no_open_b_sound; reflexivity | discriminate]. Qed.
 Example tagfree_example :
   compile2 (`" a\{ } ") default_opts = COk (MkT None [ElRaw (`" a\{ } ")] [(1, 1)]).
 Proof. apply tagfree_compile; [discriminate | apply no_open_b_sound; reflexivity]. Qed.
+
+(* a raw block keeps the leading whitespace of its body (defect F2 is fixed) *)
+Example raw_block_keeps_leading_whitespace :
+  compile2 (`"{{{{raw}}}} x{{{{/raw}}}}") default_opts =
+  COk (MkT None
+        [ElBlock (MkH (PName (`"raw")) [] [] None (Some (MkT None [ElRaw (`" x")] [(1, 13)])) None
+                      true false false)]
+        [(1, 1)]).
+Proof. vm_compute. reflexivity. Qed.
